@@ -1,7 +1,7 @@
 (* C11 - projection and rejection: structural part.  Pinned theorems only. *)
 From Coq Require Import ZArith List Bool Reals Lra.
 From Flocq Require Import Core BinarySingleNaN.
-Require Import GV.FloatBase GV.FloatLemmas GV.AngleM GV.AngleProofs GV.GeonumM GV.GeonumProofs GV.TraitsM GV.NewProofs GV.CtorProofs GV.PiBounds GV.TrigProofs GV.DotValue.
+Require Import GV.FloatBase GV.FloatLemmas GV.AngleM GV.AngleProofs GV.GeonumM GV.GeonumProofs GV.TraitsM GV.NewProofs GV.CtorProofs GV.PiBounds GV.TrigProofs GV.DotValue GV.ClosureProofs GV.SumUpper GV.DistValue GV.DirProofs GV.SumDir GV.DecompProofs.
 Open Scope R_scope.
 
 (* near-zero target: zero magnitude; otherwise |a| * |pf| along b's own angle or b's angle + pi *)
@@ -69,3 +69,46 @@ Theorem C11_to_angle_value : forall (L : libm) (u : R) g onto, cos_acc L u -> u 
     <= Rabs (R_ (mag g)) * (u + 10002 / 100000000000000) + bpow radix2 (-1075).
 Proof. exact project_to_angle_mag_value. Qed.
 Print Assumptions C11_to_angle_value.
+
+(* the Cartesian point of the projection is sg * |p| * (cos, sin)(dir onto), sg = +-1, and sg |p| is the true
+   projection coefficient |g| cos(dir onto - dir g) within 3|g|(u + 1.0002e-10) + 2^-1075 *)
+Theorem C11_project_signed : forall (L : libm) (u : R) g onto, cos_acc L u -> u <= / 1000 -> 0 <= R_ (mag g) ->
+  canonp (rem (ang g)) -> canonp (rem (ang onto)) -> (0 <= blade (ang g))%Z -> (0 <= blade (ang onto))%Z ->
+  flt (fabs (mag onto)) EPSILON = false -> fin (mag (gproject L g onto)) ->
+  let p := gproject L g onto in
+  let w := u + 10002 / 100000000000000 in
+  canonp (rem (ang p)) /\ (0 <= blade (ang p))%Z /\
+  exists sg : R, (sg = 1 \/ sg = -1) /\
+    cos (dirR (ang p)) = sg * cos (dir (ang onto)) /\ sin (dirR (ang p)) = sg * sin (dir (ang onto)) /\
+    Rabs (R_ (mag g) * cos (dir (ang onto) - dir (ang g)) - sg * R_ (mag p)) <= 3 * R_ (mag g) * w + bpow radix2 (-1075).
+Proof. exact project_signed. Qed.
+Print Assumptions C11_project_signed.
+
+(* ORTHOGONAL DECOMPOSITION: the rejection g - project(g, onto) is orthogonal to onto - the component of its
+   Cartesian point along onto's direction vanishes up to 2T + 3|g|(u + 1.0002e-10) + 2^-1075, T the
+   tolerance of C06_cartesian for the subtraction (general path) *)
+Theorem C11_reject_orthogonal : forall (L : libm) (u u2 : R) g onto,
+  cos_acc L u -> sin_acc L u -> atan2_acc L u2 -> u <= / 1000 -> 0 <= R_ (mag g) ->
+  canonp (rem (ang g)) -> canonp (rem (ang onto)) -> (0 <= blade (ang g))%Z -> (0 <= blade (ang onto))%Z ->
+  flt (fabs (mag onto)) EPSILON = false -> fin (mag (gproject L g onto)) ->
+  let np := gnegate (gproject L g onto) in
+  aeqb (ang g) (ang np) = false ->
+  aeqb (add_vv (ang g) (new one one)) (ang np) || aeqb (add_vv (ang np) (new one one)) (ang g) = false ->
+  (0 <= blade (ang g) + blade (ang np) < 2 ^ 40)%Z ->
+  fin (gadd_rad L g np) ->
+  fin (fadd (fmul (mag g) (sinF L (grade_angle (ang g)))) (fmul (mag np) (sinF L (grade_angle (ang np))))) ->
+  fin (fadd (fmul (mag g) (cosF L (grade_angle (ang g)))) (fmul (mag np) (cosF L (grade_angle (ang np))))) ->
+  let r := reject L g onto in
+  let M := Rabs (R_ (mag g)) + Rabs (R_ (mag np)) in
+  let E := M * (u + 3 / 1000000000000000) + 4 * bpow radix2 (-1075) in
+  let S := R_ (mag g) * R_ (mag g) + R_ (mag np) * R_ (mag np) in
+  let Bnd := S * (u + 1 / 100000000000000) + 10 * bpow radix2 (-1075) in
+  let tolN := R_ eps10 + 3 / 100000000000000 + IZR (blade (ang g) + blade (ang np)) * (4 / 1000000000000000) in
+  let Vx := R_ (mag g) * cos (dir (ang g)) + R_ (mag np) * cos (dir (ang np)) in
+  let Vy := R_ (mag g) * sin (dir (ang g)) + R_ (mag np) * sin (dir (ang np)) in
+  let T := sqrt Bnd * (1 + / 9007199254740992) + / 9007199254740992 * sqrt (Vx * Vx + Vy * Vy) + bpow radix2 (-1075)
+           + 3 * E + (M + 2 * E) * (u2 + tolN) in
+  Rabs (R_ (mag r) * (cos (dirR (ang r)) * cos (dir (ang onto)) + sin (dirR (ang r)) * sin (dir (ang onto))))
+    <= 2 * T + 3 * R_ (mag g) * (u + 10002 / 100000000000000) + bpow radix2 (-1075).
+Proof. exact reject_orthogonal. Qed.
+Print Assumptions C11_reject_orthogonal.
